@@ -576,7 +576,7 @@ def main():
             else:
                 check_value = node_coordinate.node
 
-            if not args.check == check_value:
+            if not args.check == str(check_value):
                 log.critical(
                     '"{}" does not match the check value.'
                     .format(args.check),
